@@ -256,7 +256,7 @@ class C03Counts(Monitor):
                 if rep < inv:
                     self.v(f"deme reports fewer evaluations than invoked (cutoff active): {type(d).__name__}", deme=d.id, reported=rep, invoked=inv)
         if not any_sat:
-            n_log = len(ctx.log)
+            n_log = len(ctx.log) - ctx.log_base
             if total != n_log:
                 self.v("tree total != number of objective invocations", where=where, total=total, invoked=n_log, unscoped=ctx.unscoped())
             if not ctx.desc.get("shared"):
@@ -275,11 +275,13 @@ class C03Counts(Monitor):
     def __init__(self):
         super().__init__()
         self._tags = {}
-        self._tag_upto = 0
+        self._tag_upto = None
         self.multi = 0
 
     def _update_tags(self):
         ctx = self.ctx
+        if self._tag_upto is None:
+            self._tag_upto = ctx.log_base
         for e in ctx.log[self._tag_upto :]:
             self._tags[e[0]] = self._tags.get(e[0], 0) + 1
         self._tag_upto = len(ctx.log)
@@ -408,8 +410,8 @@ class C04Best(Monitor):
             self.cov("best_ever_not_in_any_current_population")
         # best == best value ever observed (all engines except the local optimiser)
         has_local = any(lv["engine"].startswith("local") for lv in ctx.desc["levels"])
-        if not has_local and ctx.log and not ctx.scope:
-            ys = [e[2] for e in ctx.log]
+        if not has_local and len(ctx.log) > ctx.log_base and not ctx.scope:
+            ys = [e[2] for e in ctx.log[ctx.log_base :]]
             best_seen = max(ys) if ctx.maximize else min(ys)
             self.cov("best_vs_log_checked")
             if tb.fitness != best_seen:
@@ -437,10 +439,10 @@ class C04Best(Monitor):
             self.nt((engine_mix(ctx.desc), ctx.maximize))
         # where in the run was the best-ever value observed?  (a generation that is evaluated but not recorded
         # only matters if it holds the new best, so the workload must often improve at the very end)
-        if ctx.log and tree is not None and ctx.step > 0:
-            ys = [e[2] for e in ctx.log]
+        if len(ctx.log) > ctx.log_base and tree is not None and ctx.step > 0:
+            ys = [e[2] for e in ctx.log[ctx.log_base :]]
             b = max(ys) if ctx.maximize else min(ys)
-            first = ys.index(b)
+            first = ys.index(b) + ctx.log_base
             if first >= ctx.step_start_idx:
                 self.cov("best_ever_first_observed_in_final_metaepoch")
                 ft = ctx.first_true
